@@ -133,4 +133,141 @@ Proof.
   rewrite gen_listClass_Notation by lia. gorun.
   rewrite (gen_arrayClass_Make [] 0) by (unfold two63; cbn; lia). gorun. reflexivity.
 Qed.
+
+(* ---------- the rebuild loops of list.go ---------- *)
+Lemma pos_ordinal (n k : nat) : pos n (Z.of_nat k + 1) = if n <? S k then None else Some k.
+Proof. unfold pos. repeat zsplit; cbn [orb]; try lia; try reflexivity; f_equal; lia. Qed.
+
+(* array.SetValue(index+1, a) as the loops use it: the model's [arr_set] *)
+Lemma gen_arr_set arr (idx : nat) a F : 20 <= F ->
+  call_at F (arr_val arr) id_SetValue [VInt (Z.of_nat idx + 1); VElem a] =
+  match arr_set arr (S idx) a with Ret arr' => ROk (VTuple [], arr_val arr') | _ => RPanic end.
+Proof.
+  intros HF. rewrite gen_array_SetValue by lia. rewrite pos_ordinal. unfold arr_set. cbn [Nat.eqb orb].
+  destruct (length arr <? S idx); [reflexivity|]. cbn [Nat.sub]. rewrite Nat.sub_0_r. reflexivity.
+Qed.
+
+Ltac loop_enter F K := destruct F as [|F]; [lia|]; rewrite loop_S; unfold loop_step; fuel F K.
+
+(* InsertValue: "for index < int(size) { if index == int(slot) {..} else {..} }" *)
+Definition iv_loop : stmt := nth 5 (fn_body fn_list__InsertValue) SBreak.
+Definition iv_cond : option expr := Eval cbv in match iv_loop with SFor _ c _ _ => c | _ => None end.
+Definition iv_body : list stmt := Eval cbv in match iv_loop with SFor _ _ _ b => b | _ => [] end.
+Definition iv_env n l (slot : nat) a (size : nat) arr it (idx : nat) : env A :=
+  [(id_v, lst_val n l); (id_slot, VInt (Z.of_nat slot)); (id_value, VElem a); (id_size, VInt (Z.of_nat size));
+   (id_array, arr_val arr); (id_iterator, it_rep VNil it); (id_index, VInt (Z.of_nat idx))].
+
+Notation iv_at F n l slot a size arr it idx ex :=
+  (i_loop (interp_at A zero ext prog F) iv_cond None iv_body (iv_env n l slot a size arr it idx ++ ex)).
+
+Section IvSteps.
+Variables (n : val A) (l : list A) (slot : nat) (a : A) (size : nat).
+Hypothesis HS : (Z.of_nat size < two63)%Z.
+Hypothesis HSl : (Z.of_nat slot < two63)%Z.
+Variables (idx : nat) (it : iter A) (arr : list A) (ex : env A) (F : nat).
+Hypothesis HF : 30 <= F.
+
+Lemma iv_exit : size <= idx ->
+  iv_at (S F) n l slot a size arr it idx ex = ROk (SgNormal, iv_env n l slot a size arr it idx ++ ex).
+Proof. intros H. rewrite loop_S; unfold loop_step. fuel F 30. unfold iv_cond, iv_body, iv_env. gogo. reflexivity. Qed.
+
+Lemma iv_step_new arr' : idx < size -> idx = slot -> arr_set arr (S idx) a = Ret arr' ->
+  iv_at (S F) n l slot a size arr it idx ex = iv_at F n l slot a size arr' it (S idx) ex.
+Proof.
+  intros H E EA. pose proof (gen_arr_set arr idx a) as GS. rewrite EA in GS.
+  rewrite loop_S; unfold loop_step. fuel F 30. unfold iv_cond, iv_body, iv_env. gogo.
+  rewrite GS by lia. gorun. replace (Z.of_nat idx + 1)%Z with (Z.of_nat (S idx)) by lia. reflexivity.
+Qed.
+
+Lemma iv_step_new_panic : idx < size -> idx = slot -> arr_set arr (S idx) a = Panic ->
+  iv_at (S F) n l slot a size arr it idx ex = RPanic.
+Proof.
+  intros H E EA. pose proof (gen_arr_set arr idx a) as GS. rewrite EA in GS.
+  rewrite loop_S; unfold loop_step. fuel F 30. unfold iv_cond, iv_body, iv_env. gogo.
+  rewrite GS by lia. reflexivity.
+Qed.
+
+Hypothesis Hex : forall w, set id_existing w ex = [(id_existing, w)].
+
+Lemma iv_step_old arr' : idx < size -> idx <> slot -> arr_set arr (S idx) (fst (get_next zero it)) = Ret arr' ->
+  iv_at (S F) n l slot a size arr it idx ex =
+  iv_at F n l slot a size arr' (snd (get_next zero it)) (S idx) [(id_existing, VElem (fst (get_next zero it)))].
+Proof.
+  intros H E EA. pose proof (gen_arr_set arr idx (fst (get_next zero it))) as GS. rewrite EA in GS.
+  rewrite loop_S; unfold loop_step. fuel F 30. unfold iv_cond, iv_body, iv_env. gogo.
+  rewrite (gen_GetNext A zero ext) by lia. gorun. rewrite Hex. gorun.
+  rewrite GS by lia. gorun. replace (Z.of_nat idx + 1)%Z with (Z.of_nat (S idx)) by lia. reflexivity.
+Qed.
+
+Lemma iv_step_old_panic : idx < size -> idx <> slot -> arr_set arr (S idx) (fst (get_next zero it)) = Panic ->
+  iv_at (S F) n l slot a size arr it idx ex = RPanic.
+Proof.
+  intros H E EA. pose proof (gen_arr_set arr idx (fst (get_next zero it))) as GS. rewrite EA in GS.
+  rewrite loop_S; unfold loop_step. fuel F 30. unfold iv_cond, iv_body, iv_env. gogo.
+  rewrite (gen_GetNext A zero ext) by lia. gorun. rewrite Hex. gorun.
+  rewrite GS by lia. reflexivity.
+Qed.
+End IvSteps.
+
+(* the generated loop simulates [insert_value_loop]: one unit of fuel per iteration plus a constant.
+   [ex] is the rest of the environment: empty, or the variable "existing" declared by an earlier iteration *)
+Lemma iv_loop_sim n l slot a size : (Z.of_nat size < two63)%Z -> (Z.of_nat slot < two63)%Z ->
+  forall mf idx it arr ex F,
+  (forall w, set id_existing w ex = [(id_existing, w)]) ->
+  mf + 31 <= F ->
+  match insert_value_loop A zero mf size slot a idx it arr with
+  | Ret arr' => exists idx' it' ex',
+      iv_at F n l slot a size arr it idx ex = ROk (SgNormal, iv_env n l slot a size arr' it' idx' ++ ex')
+  | Panic => iv_at F n l slot a size arr it idx ex = RPanic
+  | Hang => True
+  end.
+Proof.
+  intros HS HSl mf. induction mf as [|mf IH]; intros idx it arr ex F Hex HF;
+    (destruct F as [|F]; [lia|]); cbn [insert_value_loop]; destruct (Nat.leb_spec size idx) as [Hd|Hd].
+  - rewrite iv_exit by (assumption || lia). eexists _, _, _. reflexivity.
+  - exact I.
+  - rewrite iv_exit by (assumption || lia). eexists _, _, _. reflexivity.
+  - destruct (Nat.eqb_spec idx slot) as [E|NE].
+    + destruct (arr_set arr (S idx) a) as [arr'| |] eqn:EA; cbn [out_bind].
+      * rewrite (iv_step_new n l slot a size HS HSl idx it arr ex F ltac:(lia) arr') by assumption.
+        apply IH; [exact Hex|lia].
+      * apply iv_step_new_panic; assumption || lia.
+      * exact I.
+    + destruct (get_next zero it) as [existing it'] eqn:EN.
+      destruct (arr_set arr (S idx) existing) as [arr'| |] eqn:EA; cbn [out_bind].
+      * rewrite (iv_step_old n l slot a size HS HSl idx it arr ex F ltac:(lia) Hex arr') by (rewrite ?EN; assumption).
+        rewrite EN. cbn [fst snd]. apply IH; [reflexivity|lia].
+      * apply iv_step_old_panic; rewrite ?EN; assumption || lia.
+      * exact I.
+Qed.
+
+(* list.InsertValue(slot, value) is [insert_value_impl] (ListImpl.v), hence [insert_value] (Seq.v):
+   fuel: one unit per value of the new list, plus a constant *)
+Lemma gen_list_InsertValue_impl n l (slot : nat) a F :
+  (Z.of_nat (length l) + 1 < two63)%Z -> length l + 100 <= F ->
+  call_at F (lst_val n l) id_InsertValue [VInt (Z.of_nat slot); VElem a] =
+  match insert_value_impl zero l slot a with
+  | Ret l' => ROk (VTuple [], lst_val n l') | Panic => RPanic | Hang => RFuel
+  end.
+Proof.
+  intros HL HF. unfold insert_value_impl.
+  fuel F 60. gocall. rewrite gen_validateSlot by lia. destruct (Nat.ltb_spec (length l) slot) as [Hs|Hs]; [reflexivity|].
+  assert (REF : insert_value_loop A zero (S (S (length l))) (S (length l)) slot a 0 (it_make l) (arr_make zero (S (length l)))
+                = Ret (firstn slot l ++ a :: skipn slot l)).
+  { pose proof (insert_value_refines A zero l slot a) as R. unfold insert_value_impl, insert_value in R.
+    destruct (Nat.ltb_spec (length l) slot); [lia|exact R]. }
+  gorun. rewrite gen_list_GetSize by lia. gorun. gogo.
+  rewrite gen_list_GetClass by lia. gorun. rewrite gen_listClass_Notation by lia. gorun.
+  replace (Z.of_nat (length l) + 1)%Z with (Z.of_nat (S (length l))) by lia.
+  rewrite gen_arrayClass_Make by lia. gorun.
+  rewrite gen_list_GetIterator by lia. gorun.
+  match goal with |- context[i_loop (interp_at A zero ext prog ?FF) ?c ?p ?b ?en] =>
+    pose proof (iv_loop_sim n l slot a (S (length l)) ltac:(lia) ltac:(lia) (S (S (length l))) 0 (it_make l)
+                  (arr_make zero (S (length l))) [] FF ltac:(reflexivity) ltac:(lia)) as SIM;
+    change (i_loop (interp_at A zero ext prog FF) c p b en)
+      with (iv_at FF n l slot a (S (length l)) (arr_make zero (S (length l))) (it_make l) 0 [])
+  end.
+  rewrite REF in SIM |- *. destruct SIM as [idx' [it' [ex' SIM]]]. rewrite SIM.
+  unfold iv_env. gorun. reflexivity.
+Qed.
 End GenSeq.
